@@ -403,15 +403,8 @@ Definition init_step (g : fs_cfg) (pfx : Z) (lv : nat) : list cop :=
   OWrite (NResult pfx false lv) [] KEmpty ::
   (if fg_decoys g then [OWrite (NResult pfx true lv) [] KEmpty] else []).
 
-Lemma res_levels_noprot : forall g, fg_proteins g = false -> fs_res_levels g = seq 0 (fg_nlevels g).
-Proof. intros g H; unfold fs_res_levels; rewrite H; reflexivity. Qed.
-
 Lemma inits_eq_gen : forall g pfx, fs_result_inits g pfx false = flat_map (init_step g pfx) (fs_res_levels g).
 Proof. reflexivity. Qed.
-
-Lemma inits_eq : forall g pfx, fg_proteins g = false ->
-  fs_result_inits g pfx false = flat_map (init_step g pfx) (seq 0 (fg_nlevels g)).
-Proof. intros g pfx H. rewrite inits_eq_gen, (res_levels_noprot g H). reflexivity. Qed.
 
 Lemma init_steps_wf : forall g pfx l W, cwf W (flat_map (init_step g pfx) l) = true.
 Proof.
@@ -616,10 +609,6 @@ Lemma result_ops_eq_gen : forall g pfx levels,
   fs_result_ops g pfx levels = flat_map (result_step g pfx) (combine (fs_res_levels g) levels).
 Proof. reflexivity. Qed.
 
-Lemma result_ops_eq : forall g pfx levels, fg_proteins g = false ->
-  fs_result_ops g pfx levels = flat_map (result_step g pfx) (combine (seq 0 (fg_nlevels g)) levels).
-Proof. intros g pfx levels H. rewrite result_ops_eq_gen, (res_levels_noprot g H). reflexivity. Qed.
-
 Lemma result_appends : forall g pfx lv bs W,
   fs_mem (NResult pfx false lv) W = true -> (fg_decoys g = true -> fs_mem (NResult pfx true lv) W = true) ->
   fs_mem (NLevel lv (fg_ext g)) W = true ->
@@ -818,16 +807,6 @@ Lemma coll_ops_shape_g : forall g ap cl, fg_glob g = false ->
     (cf_levels cf_row cf_score cf_lkey (fg_c g) (fg_dedup g) (fg_dedup g) (fg_nlevels g) (fc_rows cl) ++ fs_prot_levels g cl).
 Proof. intros g ap cl H; unfold fs_coll_ops; rewrite H; reflexivity. Qed.
 
-Lemma coll_ops_shape : forall g ap cl, fg_glob g = false -> fg_proteins g = false ->
-  fs_coll_ops g ap cl =
-  fs_result_inits g (fc_pfx cl) ap ++ fs_chunk_ops g (fc_pfx cl) (fc_rows cl) ++
-  (fs_level_ops g (fc_pfx cl) (fc_rows cl) ++ map OUnlink (fs_chunk_names g (fc_pfx cl) (fc_rows cl))) ++
-  fs_result_ops g (fc_pfx cl)
-    (cf_levels cf_row cf_score cf_lkey (fg_c g) (fg_dedup g) (fg_dedup g) (fg_nlevels g) (fc_rows cl)).
-Proof.
-  intros g ap cl H Hp; unfold fs_coll_ops, fs_prot_ops, fs_prot_levels; rewrite H, Hp. cbn [app]. rewrite app_nil_r. reflexivity.
-Qed.
-
 Lemma prot_ops_cases : forall g cl, prot_ok g cl ->
   (fg_proteins g = false /\ fs_prot_ops g cl = [] /\ fs_prot_levels g cl = []) \/
   (fg_proteins g = true /\ (1 < fg_nlevels g)%nat /\ exists ids prows,
@@ -988,7 +967,7 @@ Proof.
 Qed.
 
 (* [run_okp]: the general guard (a protein level is allowed when there is a peptide level and the oracle is given);
-   [run_ok]: no protein level — the guard of the refinement theorems in FsValP.v *)
+   [run_ok]: no protein level — the guard of the first refinement theorems in FsValP.v (those for [run_okp] follow them) *)
 Definition run_okp (g : fs_cfg) : Prop :=
   fg_glob g = false /\ fg_append g = false /\ forall cl, In cl (fg_colls g) -> prot_ok g cl.
 Definition run_ok (g : fs_cfg) : Prop := fg_glob g = false /\ fg_append g = false /\ fg_proteins g = false.
@@ -1077,14 +1056,15 @@ Proof.
   rewrite E. apply touched_flat_map_forall; exact H.
 Qed.
 
-Theorem run_touches_own_files : forall g, fg_glob g = false -> fg_proteins g = false ->
+(* with or without protein level (the protein-level file is a level file) *)
+Theorem run_touches_own_files_g : forall g, fg_glob g = false ->
   forallb run_file (touched cfn (fs_run_ops g)) = true.
 Proof.
-  intros g Hg Hp. unfold fs_run_ops. generalize false as seen.
+  intros g Hg. unfold fs_run_ops. generalize false as seen.
   induction (fg_colls g) as [|cl r IH]; intro seen; cbn [fs_colls_ops]; [reflexivity|].
   rewrite touched_app, forallb_app, IH, andb_true_r.
   set (ap := (fg_append g || (seen && (fc_pfx cl =? 0)))%bool).
-  rewrite (coll_ops_shape g ap cl Hg Hp), !touched_app, !forallb_app.
+  rewrite (coll_ops_shape_g g ap cl Hg), !touched_app, !forallb_app.
   repeat (apply andb_true_iff; split).
   - destruct ap; [reflexivity|]. rewrite inits_eq_gen. apply touched_flat_map_forall.
     intros lv _; unfold init_step; destruct (fg_decoys g); reflexivity.
@@ -1093,10 +1073,15 @@ Proof.
   - unfold fs_level_ops. rewrite touched_app, forallb_app. apply andb_true_iff; split;
       apply touched_map_forall; intros; reflexivity.
   - apply touched_map_forall. intros n Hn. apply chunk_names_are_chunks in Hn. cbn. unfold run_file. rewrite Hn. reflexivity.
+  - unfold fs_prot_ops. destruct (fg_proteins g); [|reflexivity]. destruct (fc_prot cl) as [[ids prows]|]; reflexivity.
   - rewrite result_ops_eq_gen. apply touched_flat_map_forall. intros [lv rows] _. unfold result_step.
     rewrite touched_app, forallb_app. apply andb_true_iff; split; [|reflexivity].
     apply touched_flat_map_forall. intros b _. destruct (fg_decoys g); reflexivity.
 Qed.
+
+Theorem run_touches_own_files : forall g, fg_glob g = false -> fg_proteins g = false ->
+  forallb run_file (touched cfn (fs_run_ops g)) = true.
+Proof. intros g Hg _. apply run_touches_own_files_g. exact Hg. Qed.
 
 (* ---- the code before the repair: chunk files found by glob ---- *)
 Definition gl_row (id spec : Z) (t : bool) (sc : Z) : cf_row :=
